@@ -197,6 +197,12 @@ pub fn shift_event(rng: &mut StdRng) -> Value {
         // extreme magnitudes only where the observer's membership test is exact (scalar cones)
         let e = if huge && matches!(c, ConeSpec::Nonneg(_) | ConeSpec::Zero(_)) { gen::unif(rng, 10.0, 21.0) } else { gen::unif(rng, -2.0, 6.0) };
         for i in off..off + c.numel() { s[i] = gen::normal(rng) * 10f64.powf(e); z[i] = gen::normal(rng) * 10f64.powf(e); }
+        // a second-order cone whose head is hugely negative next to an ordinary tail: the shift that repairs it is only
+        // accurate to a few units at that magnitude, more than the margin it aims at
+        if huge && matches!(c, ConeSpec::Soc(_)) && rng.gen::<f64>() < 0.5 {
+            let h = -10f64.powf(gen::unif(rng, 15.0, 20.0));
+            if rng.gen::<bool>() { s[off] = h; } else { z[off] = h; }
+        }
         off += c.numel();
     }
     let (s0, z0) = (s.clone(), z.clone());
